@@ -717,6 +717,8 @@ def run(tier):
     for x in ('0.0', '-0.0', '5e-324', '1e-9', '-1e-9', '-1.0', '-1e300', '1e300', '1.7976931348623157e308', '18446744073709551616.0', '1.8446744073709556e19', '3.6893488147419103e19'):
         eff += ['sleep(seconds(%s), 1)' % x, 'sleep(seconds(%s))' % x, 'sleep(hours(%s), "a")' % x.replace('1e-9', '1e-13'), 'sleep(days(%s), [1])' % x.replace('1e-9', '1e-14'),
                 'sleep(seconds(%s) * 2.0, 1)' % x, 'sleep(seconds(%s) + seconds(%s), 1)' % (x, x)]
+    eff += ['[3, 1, 2].n_largest(1000000000000000000)', '[3, 1, 2].n_smallest(1000000000000000000)', '[3, 1, 2].n_largest(18446744073709551615)', '1.5.format(".3000000000f")',
+            '1.5.format(".70000f").len()', '1.5.format(".65535f").len()', '1.5.format(".65536e").len()', '1.5.format(".99999%").len()', '0.0.format(".65536")', 'range(1000000000000000000).sample(30000000).len()']
     rep.bounds['effect_edge_calls'] = len(eff)
     res = []
     for part in pmap(_library_chunk, [(w, {'size': 1 << 24, 'calls': 1000}, {'sleep': True, 'regex': True}) for w in chunks(eff, 12)]):
